@@ -175,6 +175,7 @@ def _tls_case(case, tally):
     try:
         h.start()
         h.wait_event(lambda e: e[2] == "app" and e[3] == "send.", 3.0)
+        h.wait_ready()
         ctx = ssl.SSLContext(ssl.PROTOCOL_TLS_CLIENT)
         ctx.check_hostname = False
         ctx.verify_mode = ssl.CERT_NONE
